@@ -143,6 +143,10 @@ def gen_case(seed, tier='quick'):
               'build_code': rng.random() < 0.6,
               'bufsize': rng.choice([16, 64, 512, 8192]),
               'adopt': rng.random() < 0.7}
+        if rng.random() < 0.3:
+            # restore into one long-lived Model object that is used for
+            # every such restore of this history
+            op['reuse'] = True
         if use_child:
             op['child'] = True
         if faulty and rng.random() < 0.3:
@@ -174,6 +178,11 @@ def gen_case(seed, tier='quick'):
                 ops.append({'op': 'eval', 'target': rng.choice(
                     formulas or order)})
         elif r < 0.70:
+            ops.append(persist())
+        elif r < 0.72 and world['names']:
+            # from here on the live model is a sibling workbook: same names
+            # and formula texts, other bindings
+            ops.append({'op': 'sibling'})
             ops.append(persist())
         elif r < 0.76:
             pool = order + list(world['names']) + list(world['range_names'])
@@ -225,6 +234,7 @@ def _run(case, fs, amb):
             'compiled_at_start', True))
     compiled = case['knobs'].get('compiled_at_start', True)
     evaluated = False
+    reuse = {}
     snaps = {}      # path -> {'dump', 'values' | None, 'state'}
     pending_values = []     # paths persisted before compilation
 
@@ -263,6 +273,12 @@ def _run(case, fs, amb):
             evaluated = True
             log.append([seq, 'eval_all', len(vals)])
             sig.append('E')
+        elif kind == 'sibling':
+            model = worlds.world_model(worlds.sibling_world(world))
+            compiled, evaluated = True, False
+            bump('probe:live_model_replaced_by_sibling_workbook')
+            log.append([seq, 'sibling'])
+            sig.append('S')
         elif kind == 'extract':
             if not compiled:
                 continue
@@ -396,7 +412,14 @@ def _run(case, fs, amb):
             # ---- restart: nothing survives but the bytes ------------------
             fs.reset_op(bufsize=op.get('bufsize'), read_fault=rf,
                         short_seed=short)
-            new = Model()
+            if op.get('reuse'):
+                if 'obj' not in reuse:
+                    reuse['obj'] = Model()
+                else:
+                    bump('probe:restore_into_used_model_object')
+                new = reuse['obj']
+            else:
+                new = Model()
             out = outcome_of(new.construct_from_json_file, path,
                              build_code=op.get('build_code', False))
             fired = list(fs.op_fired)
@@ -469,6 +492,8 @@ def _run(case, fs, amb):
                                     json.loads(json.dumps(snap['values'])),
                                     resp['values']))
                     break
+            if op.get('reuse') and (op.get('adopt') or model is None):
+                reuse.pop('obj', None)
             if op.get('adopt') or model is None:
                 # the restored model becomes the live one (next generation);
                 # it is compiled now and was observed by evaluate_all above
